@@ -56,8 +56,9 @@ class Ellipsoid(CenteredScatterer):
         try:
             if np.any(np.array(self.r) < 0):
                 raise InvalidScatterer(self, "a semi-axis is negative")
-        except TypeError:
-            # semi-axes given as priors are not checked, as for a Spheroid
+        except (TypeError, ValueError):
+            # semi-axes given as priors (or per channel) are not checked, as
+            # for a Spheroid
             pass
         if np.isscalar(rotation) or len(rotation) != 3:
             msg = ("rotation specified as {0}; rotation should be "
